@@ -46,7 +46,7 @@ def main():
         res["suite_patched"] = suite(wt)
         res["valid"] = rc0 == 0 and rc1 != 0 and res["suite_clean"] == (79, 0) and res["suite_patched"] == (79, 0)
         t = time.time()
-        rc2, o2 = sh("cd %s && YOWSUP_REPO=%s bin/check %s --tier quick" % (V, wt, pid), timeout=3600)
+        rc2, o2 = sh("cd %s && YOWSUP_REPO=%s VERIF_EVIDENCE_DIR=/tmp/sv_ev bin/check %s --tier quick" % (V, wt, pid), timeout=3600)
         res["check_rc"] = rc2
         res["check_wall_s"] = round(time.time() - t, 1)
         res["detected"] = rc2 == 1 and ("VIOLATION property=%s" % pid) in o2
